@@ -46,6 +46,20 @@ def gen_case(seed_key: str, p_bad: float, multi_file: bool):
         R = front.Render(r, 'random' if r.random() < 0.5 else 'min')
         files["/w/m.djinni"] = R.join(R.program(decls))
         return files, "/w/m.djinni", dd, {"files": 1}
+    if r.random() < 0.35:
+        # diamond: main imports a and b, both import the shared file d (which may contain violations)
+        texts, visible = {}, []
+        lay = {"d": "/w/lib/d.djinni", "a": "/w/lib/a.djinni", "b": "/w/other/b.djinni", "m": "/w/m.djinni"}
+        heads = {"d": "", "a": '@import "d.djinni"\n', "b": '@import "../lib/d.djinni"\n', "m": '@import "lib/a.djinni"\n@import "other/b.djinni"\n'}
+        vis = {}
+        for idx, k in enumerate(["d", "a", "b", "m"]):
+            g = front.Gen(r, p_bad=p_bad, max_decls=r.choice([1, 2, 3]), dup_names=False)
+            base = vis.get("d", []) if k in ("a", "b") else (vis.get("d", []) + vis.get("a", []) + vis.get("b", []) if k == "m" else [])
+            decls = g.program_with_visible(base, prefix=f"{k}_")
+            vis[k] = decls
+            R = front.Render(r, 'random' if r.random() < 0.5 else 'min')
+            texts[lay[k]] = heads[k] + R.join(R.program(decls))
+        return texts, "/w/m.djinni", dd, {"files": 4}
     # chain / tree of imports: every file only refers to itself and to what it imports
     nfiles = r.choice([2, 2, 3])
     visible = []
